@@ -24,26 +24,54 @@ from . import common as C
 
 
 class GatedQueue:
-    """Replacement for WriterThread.queue: hands out tasks only when the driver allows it."""
+    """
+    Replacement for WriterThread.queue (a queue.Queue): hands out tasks only when the driver allows it.  One unit of
+    budget is one task; when the budget is used up a blocking get() returns the writer's stop marker (None) and a
+    non-blocking one raises queue.Empty, so that whatever shape the writer's loop has, it applies `budget` tasks and returns.
+    """
 
     def __init__(self):
         self.items = []
         self.budget = 0
 
-    def put(self, item):
+    def put(self, item, block=True, timeout=None):
         self.items.append(item)
 
-    def get(self):
+    put_nowait = put
+
+    def _take(self):
         if self.budget > 0 and self.items:
             self.budget -= 1
-            return self.items.pop(0)
+            return True, self.items.pop(0)
+        return False, None
+
+    def get(self, block=True, timeout=None):
+        ok, item = self._take()
+        if ok:
+            return item
+        if not block or timeout is not None:
+            import queue
+
+            raise queue.Empty()
         return None  # WriterThread.run() leaves its loop on None
+
+    def get_nowait(self):
+        return self.get(block=False)
+
+    def task_done(self):
+        pass
+
+    def join(self):
+        pass
 
     def qsize(self):
         return len(self.items)
 
     def empty(self):
         return not self.items
+
+    def full(self):
+        return False
 
 
 class Recorder:
